@@ -3,6 +3,7 @@ package pdu
 import (
 	"bufio"
 	"bytes"
+	"strings"
 )
 
 func readCString(buf *bufio.Reader) (value string, err error) {
@@ -13,9 +14,13 @@ func readCString(buf *bufio.Reader) (value string, err error) {
 	return
 }
 
-func writeCString(buf *bytes.Buffer, value string) {
+func writeCString(buf *bytes.Buffer, value string) (err error) {
+	if strings.IndexByte(value, 0) >= 0 {
+		return ErrInvalidCString
+	}
 	buf.WriteString(value)
 	buf.WriteByte(0)
+	return
 }
 
 func getBool(v bool) byte {
